@@ -188,8 +188,13 @@ func (e *evClient) store() (exported.ClientState, error) {
 }
 
 func setupEthProofClient(l *LC, rAbs, r1, r0 common.Hash) *evClient {
+	return setupEthProofClientNamed(l, "cli-ethp", false, rAbs, r1, r0)
+}
+
+// reorg = true: the client follows 101..105 and is then moved to a sibling of 103; the consensus states of the
+// abandoned blocks 104 (root r1) and 105 stay in its store, above the head
+func setupEthProofClientNamed(l *LC, name string, reorg bool, rAbs, r1, r0 common.Hash) *evClient {
 	c := l.C
-	name := "cli-ethp"
 	l.EnsureRelayer([]string{name})
 	base := uint64(c.Header.Time.Unix()) - 1000
 	mk := func(n uint64, parent *ethtypes.Header, root common.Hash) *ethtypes.Header {
@@ -209,7 +214,12 @@ func setupEthProofClient(l *LC, rAbs, r1, r0 common.Hash) *evClient {
 		panic("create eth proof client: " + msg)
 	}
 	prev := g
-	for i, root := range []common.Hash{r1, r1, r0} {
+	roots := []common.Hash{r1, r1, r0}
+	if reorg {
+		roots = []common.Hash{r1, r1, r0, r1, r0}
+	}
+	var h102 *ethtypes.Header
+	for i, root := range roots {
 		h := mk(101+uint64(i), prev, root)
 		msg, err := clienttypes.NewMsgUpdateClient(name, h, c.Accts[lcRelayer].Acc)
 		must(err)
@@ -217,6 +227,19 @@ func setupEthProofClient(l *LC, rAbs, r1, r0 common.Hash) *evClient {
 			panic("eth update: " + r.Log)
 		}
 		prev = h
+		if i == 1 {
+			h102 = h
+		}
+	}
+	if reorg {
+		s := mk(103, h102, r0)
+		s.Extra = []byte("sibling")
+		msg, err := clienttypes.NewMsgUpdateClient(name, s, c.Accts[lcRelayer].Acc)
+		must(err)
+		if r := c.DeliverMsgs(c.Accts[lcRelayer], msg); !r.OK() {
+			panic("eth reorg update: " + r.Log)
+		}
+		return &evClient{C: c, Name: name, HOK: 101, HDelay: 102, HAbove: 104, HUnknown: 99, HAbsent: 100}
 	}
 	return &evClient{C: c, Name: name, HOK: 101, HDelay: 102, HAbove: 104, HUnknown: 99, HAbsent: 100}
 }
@@ -266,6 +289,7 @@ func driveEVMProof(t *testing.T, in, out string, seed int64) {
 	type world struct {
 		w1, w0, wabs *evState
 		eth, bsc     *evClient
+		ethr         *evClient // the reorganised ETH client (a consensus state stored above its head)
 	}
 	worlds := map[string]*world{}
 	getWorld := func(valueCls string) *world {
@@ -276,6 +300,7 @@ func driveEVMProof(t *testing.T, in, out string, seed int64) {
 		l := NewLC()
 		w.eth = setupEthProofClient(l, w.wabs.root(), w.w1.root(), w.w0.root())
 		w.bsc = setupBscProofClient(l, keys, w.wabs.root(), w.w1.root(), w.w0.root())
+		w.ethr = setupEthProofClientNamed(l, "cli-ethr", true, w.wabs.root(), w.w1.root(), w.w0.root())
 		worlds[valueCls] = w
 		return w
 	}
@@ -390,6 +415,12 @@ func driveEVMProof(t *testing.T, in, out string, seed int64) {
 			height = cl.HUnknown
 		case "abovehead":
 			height = cl.HAbove
+		case "abovestored":
+			// above the head, but a consensus state with the right root is stored there (ETH: left behind by a reorganisation)
+			height = cl.HAbove
+			if str(cs["client"]) == "eth" {
+				cl = w.ethr
+			}
 		case "withindelay":
 			height = cl.HDelay
 		}
